@@ -408,26 +408,26 @@ pub(crate) fn validate_channelmodes<'a>(
     })
 }
 
-fn starts_single_wilcards<'a>(pattern: &'a str, text: &'a str) -> bool {
-    if pattern.len() <= text.len() {
-        pattern
-            .bytes()
-            .enumerate()
-            .all(|(i, c)| c == b'?' || c == text.as_bytes()[i])
-    } else {
-        false
-    }
+fn starts_single_wilcards(pattern: &[char], text: &[char]) -> bool {
+    pattern.len() <= text.len()
+        && pattern
+            .iter()
+            .zip(text.iter())
+            .all(|(p, c)| *p == '?' || p == c)
 }
 
 pub(crate) fn match_wildcard<'a>(pattern: &'a str, text: &'a str) -> bool {
-    let mut pat = pattern;
-    let mut t = text;
+    // match by characters (not bytes) to handle multi-byte characters correctly.
+    let pattern = pattern.chars().collect::<Vec<_>>();
+    let text = text.chars().collect::<Vec<_>>();
+    let mut pat = &pattern[..];
+    let mut t = &text[..];
     let mut asterisk = false;
     while !pat.is_empty() {
-        let (newpat, m, cur_ast) = if let Some(i) = pat.find('*') {
+        let (newpat, m, cur_ast) = if let Some(i) = pat.iter().position(|c| *c == '*') {
             (&pat[i + 1..], &pat[..i], true)
         } else {
-            (&pat[pat.len()..pat.len()], pat, false)
+            (&pat[pat.len()..], pat, false)
         };
 
         if !m.is_empty() {
@@ -437,15 +437,14 @@ pub(crate) fn match_wildcard<'a>(pattern: &'a str, text: &'a str) -> bool {
                     return false;
                 }
                 t = &t[m.len()..];
-            } else if cur_ast || !newpat.is_empty() {
-                // after asterisk. only if some rest in pattern and
-                // if last current character is asterisk
+            } else if cur_ast {
+                // after asterisk and before next asterisk.
                 let mut i = 0;
                 // find first single wildcards occurrence.
-                while i <= t.len() - m.len() && !starts_single_wilcards(m, &t[i..]) {
+                while i + m.len() <= t.len() && !starts_single_wilcards(m, &t[i..]) {
                     i += 1;
                 }
-                if i <= t.len() - m.len() {
+                if i + m.len() <= t.len() {
                     // if found
                     t = &t[i + m.len()..];
                 } else {
@@ -453,10 +452,10 @@ pub(crate) fn match_wildcard<'a>(pattern: &'a str, text: &'a str) -> bool {
                 }
             } else {
                 // if last pattern is not asterisk
-                if !starts_single_wilcards(m, &t[t.len() - m.len()..]) {
+                if t.len() < m.len() || !starts_single_wilcards(m, &t[t.len() - m.len()..]) {
                     return false;
                 }
-                t = &t[t.len()..t.len()];
+                t = &t[t.len()..];
             }
         }
 
@@ -464,7 +463,7 @@ pub(crate) fn match_wildcard<'a>(pattern: &'a str, text: &'a str) -> bool {
         pat = newpat;
     }
     // if last character in pattern is '*' or text has been fully consumed
-    (!pattern.is_empty() && pattern.as_bytes()[pattern.len() - 1] == b'*') || t.is_empty()
+    pattern.last() == Some(&'*') || t.is_empty()
 }
 
 // normalize source mask - for example '*' to '*!*@*'
